@@ -8,6 +8,7 @@ mod sx;
 mod c01;
 mod c02;
 mod c07;
+mod c19;
 
 use out::Out;
 
@@ -50,6 +51,9 @@ fn main() {
                 "c01" => c01::run(&args, &mut out),
                 "c02" => c02::run(&args, &mut out),
                 "c07" => c07::run(&args, &mut out),
+                "c19" => c19::run(&args, &mut out),
+                "c19h" => c19::run_histories(&args, &mut out),
+                "c19cli" => c19::run_cli(&args, &mut out),
                 s => { eprintln!("unknown stream {s}"); std::process::exit(2); }
             }
             out.write(&args.out);
